@@ -43,7 +43,8 @@ type Item struct {
 	Header   [][2]string `json:"header,omitempty"`
 	CLen     int64       `json:"clen"`
 	Body     []byte      `json:"body,omitempty"`
-	Pad      int         `json:"pad,omitempty"` // that many 'x' bytes follow Body
+	Pad      int         `json:"pad,omitempty"` // that many bytes follow Body: 'x', or PadUnit over and over (cut at Pad bytes)
+	PadUnit  []byte      `json:"pad_unit,omitempty"`
 	BodyFail bool        `json:"body_fail,omitempty"`
 }
 
@@ -51,7 +52,11 @@ func (it Item) data() []byte {
 	if it.Pad == 0 {
 		return it.Body
 	}
-	return append(append([]byte{}, it.Body...), bytes.Repeat([]byte{'x'}, it.Pad)...)
+	unit := it.PadUnit
+	if len(unit) == 0 {
+		unit = []byte{'x'}
+	}
+	return append(append([]byte{}, it.Body...), bytes.Repeat(unit, it.Pad/len(unit)+1)[:it.Pad]...)
 }
 
 type Wop struct {
@@ -728,7 +733,7 @@ type builder struct {
 }
 
 // share gives a name to a (possibly large) byte string so that it is written once
-func (b *builder) share(data []byte, body string, pad int) string {
+func (b *builder) share(data []byte, body string, pad int, unit []byte) string {
 	key := string(data)
 	if n, ok := b.names[key]; ok {
 		return n
@@ -739,7 +744,14 @@ func (b *builder) share(data []byte, body string, pad int) string {
 	n := fmt.Sprintf("b%d", len(b.names))
 	term := bs(body)
 	if pad > 0 {
-		term = "(" + term + " ++ rep " + fmt.Sprint(pad) + "%N 120%N)"
+		switch len(unit) {
+		case 0:
+			term = "(" + term + " ++ rep " + fmt.Sprint(pad) + "%N 120%N)"
+		case 1:
+			term = "(" + term + " ++ rep " + fmt.Sprint(pad) + "%N " + fmt.Sprint(int(unit[0])) + "%N)"
+		default:
+			term = "(" + term + " ++ repu " + fmt.Sprint(pad) + "%N " + bsb(unit) + ")"
+		}
 	}
 	b.lets = append(b.lets, "let "+n+" := "+term+" in ")
 	b.names[key] = n
@@ -821,7 +833,7 @@ func coqCase(in Input, ob Observed) string {
 			continue
 		}
 		data := it.data()
-		name := b.share(data, string(it.Body), it.Pad)
+		name := b.share(data, string(it.Body), it.Pad, it.PadUnit)
 		addHash(data, name)
 		var hs []string
 		for _, kv := range it.Header {
@@ -870,7 +882,7 @@ func coqCase(in Input, ob Observed) string {
 			bs(media)+" "+jerr+" "+jnames+" "+jindex+")")
 	}
 	if cl.Op == "PushManifest" {
-		name := b.share(cl.Contents, string(cl.Contents), 0)
+		name := b.share(cl.Contents, string(cl.Contents), 0, nil)
 		addHash(cl.Contents, name)
 	}
 	// call
@@ -1069,6 +1081,138 @@ func blankBodies(doc []byte) [][]byte {
 	}
 	return append(out, []byte("\n\x00garbage\xff"), []byte(" \t{"), []byte("{ \n"),
 		append([]byte(" \r\n"), doc...), append(append([]byte("\n"), doc...), " \n"...))
+}
+
+
+// Long bodies made of ONE class of bytes, at lengths around the powers of two where a client
+// that quotes, truncates, sniffs or buffers a body has its limits.  A loop that looks for a rune
+// start, a terminator, a printable byte or a quote and has only one bound runs off the end (or
+// off the start) of such a body; mixed garbage always stops it early.
+var byteClasses = [][]byte{
+	{0x80}, {0xBF}, // UTF-8 continuation bytes
+	{0xFF}, {0x00}, // never valid in UTF-8; NUL
+	{0xC3}, {0xF0}, // lead bytes without continuation
+	{0xED, 0xA0, 0x80},       // a surrogate half
+	{0xC0, 0x80},             // over-long NUL
+	{0xE2, 0x82, 0xAC},       // a valid 3-byte rune over and over: every limit that is not a multiple of 3 cuts one
+	{0xF0, 0x9F, 0x98, 0x80}, // a valid 4-byte rune
+	{'"'}, {'\\'}, {'\n'}, {'%'}, {' '},
+}
+
+var classLengths = []int{255, 256, 257, 511, 512, 513, 1023, 1024, 1025, 2047, 2048, 2049, 4095, 4096, 4097, 8191, 8192, 8193}
+
+var classCTypes = []string{"", "text/plain", "application/json", "text/html; charset=utf-8", "application/octet-stream"}
+
+// Standard and registry headers a client does not read today but might start reading (to log,
+// to retry, to authenticate, to decode): their well-formed values; the pool of a key also has
+// the truncated spellings of these, unbalanced quotes, blank, over-long and repeated values.
+var extraWellFormed = [][]string{
+	{"Warning", `299 - "deprecated API, use v2"`, `199 registry.example "miscellaneous warning" "Wed, 21 Oct 2015 07:28:00 GMT"`},
+	{"Retry-After", "120", "Wed, 21 Oct 2015 07:28:00 GMT"},
+	{"WWW-Authenticate", `Bearer realm="https://auth.example/token",service="registry.example",scope="repository:foo/bar:pull"`, `Basic realm="registry"`},
+	{"Content-Encoding", "gzip", "identity"},
+	{"Transfer-Encoding", "chunked"},
+	{"ETag", `"abc123"`, `W/"abc"`},
+	{"Date", "Wed, 21 Oct 2015 07:28:00 GMT"},
+	{"Last-Modified", "Wed, 21 Oct 2015 07:28:00 GMT"},
+	{"Location", locOK, "https://other.example/up?x=1"},
+	{"OCI-Subject", digOK},
+	{"OCI-Filters-Applied", "artifactType"},
+	{"Docker-Distribution-API-Version", "registry/2.0"},
+	{"Docker-Upload-UUID", "0f8fad5b-d9cb-469f-a165-70867728950e"},
+	{"Accept-Ranges", "bytes"},
+	{"Content-Disposition", `attachment; filename="blob.bin"`},
+	{"Content-Length", "11", "-1"},
+	{"Cache-Control", `max-age=60, private="x"`},
+	{"RateLimit-Remaining", "100;w=21600"},
+	{"Connection", "close"},
+	{"Trailer", "Docker-Content-Digest"},
+	{"Set-Cookie", `a="b"; Path=/; HttpOnly`},
+	{"Content-Type", "application/json; charset=utf-8"},
+	{"Docker-Content-Digest", digOK},
+	{"Content-Range", "bytes 0-4/5"},
+	{"Range", "0-9"},
+	{"OCI-Chunk-Min-Length", "10"},
+	{"Link", `</v2/_catalog?n=2&last=b>; rel="next"`},
+}
+
+var longTail = strings.Repeat("a", 4200)
+
+type extraPool struct {
+	key  string
+	vals []string
+}
+
+var extraPools = func() []extraPool {
+	var out []extraPool
+	for _, e := range extraWellFormed {
+		p := extraPool{key: http.CanonicalHeaderKey(e[0])}
+		seen := map[string]bool{}
+		add := func(v string) {
+			if !seen[v] {
+				seen[v] = true
+				p.vals = append(p.vals, v)
+			}
+		}
+		for _, v := range e[1:] {
+			add(v)
+		}
+		for _, v := range e[1:] {
+			for _, t := range truncations(v) {
+				add(t)
+			}
+			// unbalanced quotes, brackets, separators doubled
+			add(v + `"`)
+			add(`"` + v)
+			add(strings.ReplaceAll(v, `"`, ""))
+			add(v + ",")
+			add("," + v)
+			add(v + ";")
+			add(" " + v + " ")
+		}
+		add("")
+		add(" ")
+		add(`"`)
+		add("\x00\xff")
+		add(e[1] + longTail)
+		if i := strings.IndexAny(e[1], `"=/ `); i >= 0 {
+			add(e[1][:i+1] + longTail) // over-long right after the first separator, never closed
+		}
+		add(longTail)
+		out = append(out, p)
+	}
+	return out
+}()
+
+func isRelevant(op, key string) bool {
+	for _, k := range relevantHeaders(op) {
+		if http.CanonicalHeaderKey(k) == key {
+			return true
+		}
+	}
+	return false
+}
+
+// extraHeaders adds, for every key the call does not look at, the k-th value of its pool
+func extraHeaders(h [][2]string, op string, k int) [][2]string {
+	out := append([][2]string{}, h...)
+	for _, p := range extraPools {
+		if isRelevant(op, p.key) {
+			continue
+		}
+		out = with(out, p.key, p.vals[k%len(p.vals)])
+	}
+	return out
+}
+
+func maxExtraPool() int {
+	n := 0
+	for _, p := range extraPools {
+		if len(p.vals) > n {
+			n = len(p.vals)
+		}
+	}
+	return n
 }
 
 var stdError = []byte(`{"errors":[{"code":"DENIED","message":"m"}]}`)
@@ -1630,6 +1774,139 @@ func (g *gen) enumerate() {
 			}
 		}
 	}
+	// 2d. long bodies of one byte class around the powers of two.  All of them as the error answer
+	// of a GET and of a PUT under every Content-Type kind; at every step of every call each length
+	// (classes, Content-Types, statuses and declared lengths rotating), as the error answer and as
+	// the body of the successful answer; a text prefix and then the class bytes across a boundary
+	classItem := func(st int, ct string, n int, cls []byte, k int) Item {
+		e := Item{Status: st, Header: withCType(nil, ct), CLen: []int64{-1, int64(n), -1, 0, math.MaxInt64}[k%5], Pad: n, PadUnit: cls}
+		if st >= 300 && st < 400 && k%2 == 0 {
+			e.Header = with(e.Header, "Location", "/elsewhere")
+		}
+		return e
+	}
+	for _, cl := range baseCalls {
+		if !(cl.Op == "GetBlob" || cl.Op == "PushManifest") {
+			continue
+		}
+		good := goodScript(cl)
+		k := 0
+		for _, cls := range byteClasses {
+			for _, n := range classLengths {
+				for ci, ct := range classCTypes {
+					if ci >= 3 || cl.Op == "PushManifest" && ci != k%3 {
+						k++
+						continue
+					}
+					s := cloneScript(good)
+					s[0] = classItem([]int{404, 500, 400, 503, 403}[k%5], ct, n, cls, 0)
+					k++
+					g.add(Input{Call: cl, Script: s}, "class-error-body")
+				}
+			}
+			for ni, n := range []int{256, 512, 1024} {
+				for ti, ct := range []string{"", "text/html"} {
+					if cl.Op == "PushManifest" && ti != ni%2 {
+						continue
+					}
+					for _, extra := range []int{1, 3} {
+						s := cloneScript(good)
+						s[0] = Item{Status: 502, Header: withCType(nil, ct), CLen: -1, Body: bytes.Repeat([]byte("a"), n-1), Pad: 1 + extra, PadUnit: cls}
+						g.add(Input{Call: cl, Script: s}, "class-error-body")
+					}
+				}
+			}
+		}
+	}
+	{
+		k := 0
+		for _, cl := range baseCalls {
+			good := goodScript(cl)
+			for step := range good {
+				for _, n := range classLengths {
+					cls := byteClasses[k%len(byteClasses)]
+					ct := classCTypes[(k/2)%len(classCTypes)]
+					st := blankStatuses[(k/3)%len(blankStatuses)]
+					s := cloneScript(good)
+					s[step] = classItem(st, ct, n, cls, k)
+					s = append(s, good[step:]...)
+					g.add(Input{Call: cl, Script: s}, "class-error-body")
+					if k%3 == 0 {
+						s := cloneScript(good)
+						s[step].Header = withCType(good[step].Header, classCTypes[(k/3)%len(classCTypes)])
+						s[step].Body, s[step].Pad, s[step].PadUnit = nil, n, cls
+						s[step].CLen = int64(n)
+						if k%2 == 1 {
+							s[step].CLen = -1
+						}
+						g.add(Input{Call: cl, Script: s}, "class-body")
+					}
+					k++
+				}
+			}
+		}
+	}
+	// 2e. headers the client does not read today, at every step of every call: the k-th value of
+	// every pool at once (on the successful answer, on an error answer in its place, on a
+	// redirect before it); and each value of each pool alone on a blob read, a listing and a push
+	{
+		m := maxExtraPool()
+		per := 36 // values of each pool per step; the window moves from step to step so that long pools are covered over the steps
+		if m < per {
+			per = m
+		}
+		w := 0
+		for ci, cl := range baseCalls {
+			good := goodScript(cl)
+			for step := range good {
+				w++
+				for k := w * per; k < (w+1)*per; k++ {
+					s := cloneScript(good)
+					switch (k + step + ci) % 3 {
+					case 0:
+						s[step].Header = extraHeaders(good[step].Header, cl.Op, k)
+					case 1:
+						st := blankStatuses[k%len(blankStatuses)]
+						e := Item{Status: st, Header: extraHeaders(hdr("Content-Type", "application/json"), cl.Op, k), CLen: -1, Body: stdError}
+						s[step] = e
+						s = append(s, good[step:]...)
+					case 2:
+						e := Item{Status: []int{307, 301, 308, 302}[k%4], Header: extraHeaders(hdr("Location", "/hop"), cl.Op, k), CLen: 0}
+						if isRelevant(cl.Op, "Location") {
+							e.Header = with(e.Header, "Location", "/hop")
+						}
+						s = append(append(cloneScript(good[:step]), e), good[step:]...)
+						s[step+1].Header = extraHeaders(good[step].Header, cl.Op, k+1)
+					}
+					g.add(Input{Call: cl, Script: s}, "header-extra")
+				}
+			}
+		}
+		for _, cl := range baseCalls {
+			if cl.Op != "GetBlob" {
+				continue
+			}
+			good := goodScript(cl)
+			for _, p := range extraPools {
+				if isRelevant(cl.Op, p.key) {
+					continue
+				}
+				for i, v := range p.vals {
+					s := cloneScript(good)
+					s[0].Header = with(good[0].Header, p.key, v)
+					if i%3 == 1 {
+						s[0] = Item{Status: 429, Header: with(hdr("Content-Type", "application/json"), p.key, v), CLen: -1, Body: stdError}
+					}
+					g.add(Input{Call: cl, Script: s}, "header-extra-single")
+					if i%8 == 0 && i+1 < len(p.vals) {
+						s := cloneScript(good)
+						s[0].Header = with(good[0].Header, p.key, v, p.vals[i+1])
+						g.add(Input{Call: cl, Script: s}, "header-extra-single")
+					}
+				}
+			}
+		}
+	}
 	// 2c. absurd declared lengths on the later successful answers of multi-answer operations:
 	// each page of a listing, the HEAD answer of a large tag read
 	for _, op := range []string{"Repositories", "Tags"} {
@@ -1952,7 +2229,19 @@ func (g *gen) randomItem(cl Call) Item {
 	if isListing(cl.Op) && r.Intn(3) == 0 {
 		it.Body = listBodies[r.Intn(len(listBodies))]
 	}
-	switch r.Intn(10) {
+	if r.Intn(5) == 0 {
+		for j, m := 0, 1+r.Intn(3); j < m; j++ {
+			p := extraPools[r.Intn(len(extraPools))]
+			it.Header = with(it.Header, p.key, g.pick(p.vals))
+		}
+	}
+	switch r.Intn(11) {
+	case 10:
+		it.Body, it.Pad, it.PadUnit = nil, classLengths[r.Intn(len(classLengths))], byteClasses[r.Intn(len(byteClasses))]
+		if r.Intn(2) == 0 {
+			it.Status = blankStatuses[r.Intn(len(blankStatuses))]
+			it.Header = withCType(it.Header, classCTypes[r.Intn(len(classCTypes))])
+		}
 	case 0:
 		cs := clens(len(it.data()))
 		it.CLen = cs[r.Intn(len(cs))]
